@@ -119,19 +119,21 @@ func (p *Parser) AppendLastReturnT() {
 		return
 	}
 
-	for _, candidateT := range p.lastReturnT {
-		if candidateT.IsMatchType(p.lastEvaluatedT.(*base.T)) {
-			return
-		}
-	}
+	// (the last value may also be a list of values - a multiple assignment -,
+	// which is no single return value)
+	lastEvaluatedT, ok := p.lastEvaluatedT.(*base.T)
 
-	if p.lastEvaluatedT.(*base.T) == nil {
+	if !ok || lastEvaluatedT == nil {
 		p.lastReturnT = append(p.lastReturnT, *base.MakeNil())
 
 		return
 	}
 
-	lastEvaluatedT := p.lastEvaluatedT.(*base.T)
+	for _, candidateT := range p.lastReturnT {
+		if candidateT.IsMatchType(lastEvaluatedT) {
+			return
+		}
+	}
 
 	if lastEvaluatedT.IsUnionType() {
 		p.lastReturnT = append(p.lastReturnT, lastEvaluatedT.GetVariants()...)
